@@ -11,6 +11,7 @@ import (
 	"os"
 	"sort"
 	"strings"
+	"sync"
 
 	"github.com/containerd/stargz-snapshotter/metadata"
 )
@@ -62,7 +63,8 @@ type View struct {
 }
 
 type interner struct {
-	m map[string]int
+	mu sync.Mutex // layers of one case are observed concurrently
+	m  map[string]int
 }
 
 func newInterner(pre ...string) *interner {
@@ -73,6 +75,8 @@ func newInterner(pre ...string) *interner {
 	return in
 }
 func (in *interner) id(s string) int {
+	in.mu.Lock()
+	defer in.mu.Unlock()
 	if v, ok := in.m[s]; ok {
 		return v
 	}
